@@ -9,6 +9,7 @@ import (
 	"fmt"
 	"log/slog"
 	"sort"
+	"sync"
 	"testing"
 	"time"
 
@@ -25,9 +26,10 @@ type c20bMsg struct {
 }
 
 type c20bBurst struct {
-	Msgs  []c20bMsg `json:"msgs"` // all arrive in one instant (one RPC per message, or one RPC for all)
-	One   bool      `json:"one_rpc,omitempty"`
-	GapS  int       `json:"gap_s"`
+	Msgs []c20bMsg `json:"msgs"` // all arrive in one instant (one RPC per message, or one RPC for all)
+	One  bool      `json:"one_rpc,omitempty"`
+	GapS int       `json:"gap_s"`
+	Over bool      `json:"over,omitempty"` // arrives while the validation pipeline is full (overload cases)
 }
 
 type c20bCase struct {
@@ -35,10 +37,19 @@ type c20bCase struct {
 	Inline  bool        `json:"inline"`
 	Async   bool        `json:"extra_async_validator"`
 	Bursts  []c20bBurst `json:"bursts"`
+	Extra2  bool        `json:"second_default_validator,omitempty"` // an accepting inline default validator registered after the sequence-number validator
+	// Overload: validation queue of one, one worker and a first default validator the harness can hold: bursts marked
+	// Over arrive while the pipeline is full (they may be dropped, never let through unvalidated)
+	Overload bool `json:"overload,omitempty"`
 }
 
 func c20bGen(rt *rapid.T) c20bCase {
 	c := c20bCase{Workers: rapid.IntRange(1, 8).Draw(rt, "workers"), Inline: rapid.Bool().Draw(rt, "inline"), Async: rapid.Bool().Draw(rt, "async")}
+	c.Extra2 = rapid.IntRange(0, 2).Draw(rt, "extra2") == 0
+	c.Overload = rapid.IntRange(0, 4).Draw(rt, "overload") == 0
+	if c.Overload {
+		c.Workers = 1
+	}
 	nb := rapid.IntRange(1, 8).Draw(rt, "nbursts")
 	for i := 0; i < nb; i++ {
 		b := c20bBurst{One: rapid.Bool().Draw(rt, "one"), GapS: rapid.SampledFrom([]int{0, 0, 1, 3, 61, 63, 70, 130}).Draw(rt, "gap")}
@@ -48,6 +59,9 @@ func c20bGen(rt *rapid.T) c20bCase {
 				m.Len = rapid.IntRange(0, 12).Draw(rt, "len")
 			}
 			b.Msgs = append(b.Msgs, m)
+		}
+		if c.Overload {
+			b.Over = rapid.Bool().Draw(rt, "over")
 		}
 		c.Bursts = append(c.Bursts, b)
 	}
@@ -72,9 +86,31 @@ func c20bRunInBubble(t *testing.T, c c20bCase, res *vfResult) {
 	gp := DefaultGossipSubParams()
 	gp.D, gp.Dlo, gp.Dhi, gp.Dscore, gp.Dout = 6, 1, 12, 0, 0
 	tsp := &TopicScoreParams{SkipAtomicValidation: true, TopicWeight: 1, InvalidMessageDeliveriesWeight: -1, InvalidMessageDeliveriesDecay: 0.9999}
-	opts := []Option{WithSeenMessagesTTL(2 * time.Second), WithDefaultValidator(NewBasicSeqnoValidator(store, slog.Default()), vo...),
+	var holdMu sync.Mutex
+	var hold chan struct{}
+	var pre []Option
+	if c.Overload {
+		pre = append(pre, WithValidateQueueSize(1), WithDefaultValidator(func(ctx context.Context, _ peer.ID, _ *Message) ValidationResult {
+			holdMu.Lock()
+			h := hold
+			holdMu.Unlock()
+			if h != nil {
+				select {
+				case <-h:
+				case <-ctx.Done():
+				}
+			}
+			return ValidationAccept
+		}, WithValidatorInline(true)))
+		res.label("overload-configuration")
+	}
+	opts := append(pre, WithSeenMessagesTTL(2*time.Second), WithDefaultValidator(NewBasicSeqnoValidator(store, slog.Default()), vo...),
 		WithPeerScore(&PeerScoreParams{AppSpecificScore: func(peer.ID) float64 { return 0 }, DecayInterval: time.Hour, DecayToZero: 0.0001, Topics: map[string]*TopicScoreParams{topic: tsp}},
-			&PeerScoreThresholds{GossipThreshold: -1e9, PublishThreshold: -1e9, GraylistThreshold: -1e9, AcceptPXThreshold: 1e9})}
+			&PeerScoreThresholds{GossipThreshold: -1e9, PublishThreshold: -1e9, GraylistThreshold: -1e9, AcceptPXThreshold: 1e9}))
+	if c.Extra2 {
+		opts = append(opts, WithDefaultValidator(func(context.Context, peer.ID, *Message) ValidationResult { return ValidationAccept }, WithValidatorInline(true)))
+		res.label("second-default-validator-inline")
+	}
 	n, err := newVfNode(t, vfNodeCfg{Router: "gossipsub", Params: &gp, ManualHeartbeat: true, Workers: c.Workers, Opts: opts})
 	if err != nil {
 		res.Inconclusive = err.Error()
@@ -95,6 +131,7 @@ func c20bRunInBubble(t *testing.T, c c20bCase, res *vfResult) {
 	n.drain()
 	time.Sleep(500 * time.Millisecond)
 	author := func(a int) *vfIdent { return vfPeer(33 + a) }
+	fillSeq := uint64(1000)
 	highest := map[int]uint64{} // highest sequence number the validator has accepted per author (model)
 	replayAfterExpiry, concurrent := false, false
 	lastSeenAt := map[[2]int]time.Time{}
@@ -140,12 +177,38 @@ func c20bRunInBubble(t *testing.T, c c20bCase, res *vfResult) {
 			lastSeenAt[key] = now
 		}
 		penBefore := invalidSum()
+		var held chan struct{}
+		if c.Overload && b.Over {
+			// the worker waits inside the first validator with one filler, a second filler occupies the queue
+			held = make(chan struct{})
+			holdMu.Lock()
+			hold = held
+			holdMu.Unlock()
+			for k := 0; k < 2; k++ {
+				fillSeq++
+				tn := topic
+				f := &pb.Message{From: []byte(author(3).ID), Data: []byte(fmt.Sprintf("filler-%d", fillSeq)), Seqno: (c20Msg{Seq: int(fillSeq), Len: 8}).seqBytes(), Topic: &tn}
+				if err := signMessage(author(3).ID, author(3).Priv, f); err != nil {
+					panic(err)
+				}
+				n.recv(4, vfMsgRPC(f))
+				n.settle()
+			}
+			res.label("burst-while-pipeline-full")
+		}
 		if b.One {
 			n.recv(senders[0], vfMsgRPC(rpcMsgs...))
 		} else {
 			for i, pm := range rpcMsgs {
 				n.recv(senders[i], vfMsgRPC(pm))
 			}
+		}
+		if held != nil {
+			n.settle()
+			holdMu.Lock()
+			hold = nil
+			holdMu.Unlock()
+			close(held)
 		}
 		if len(b.Msgs) >= 2 && c.Workers >= 2 {
 			concurrent = true
@@ -216,7 +279,7 @@ func c20bRunInBubble(t *testing.T, c c20bCase, res *vfResult) {
 			// completeness: the largest well-formed number of the burst, if beyond everything accepted so far, is accepted
 			ws := wellFormed[a]
 			sort.Slice(ws, func(i, j int) bool { return ws[i] < ws[j] })
-			if len(ws) > 0 && ws[len(ws)-1] > highest[a] && !acc[ws[len(ws)-1]] {
+			if len(ws) > 0 && ws[len(ws)-1] > highest[a] && !acc[ws[len(ws)-1]] && !c.Overload { // (with a queue of one, members of a burst may be dropped)
 				res.violate("C20/fresh-not-accepted", bi, "author %d: sequence number %d (highest before: %d) was not accepted", a, ws[len(ws)-1], highest[a])
 			}
 			if len(puts) > 0 {
